@@ -180,16 +180,16 @@ def c07_transition(ctx: Ctx) -> List[Violation]:
         if req is None:
             # admitted and picked up in the same step: take it from the world's spec
             spec = ctx.world.request_specs.get(r["request_id"])
-            origin = spec["origin"] if spec else None
+            origin = ctx.world.rn.position_from_geoid(spec["origin"]).geoid if spec else None
         else:
             origin = req.origin
         if origin is not None and r["geoid"] != origin:
             out.append(Violation("C07", "pickup_place", (), f"request {r['request_id']} picked up on {r['geoid']}, origin {origin}"))
         ctx.cov["c07:pickup"] += 1
     for r in ctx.of_type("DROPOFF_REQUEST_EVENT"):
-        spec = ctx.world.request_specs.get(r["request_id"])
-        if spec and r["geoid"] != spec["destination"]:
-            out.append(Violation("C07", "dropoff_place", (), f"request {r['request_id']} dropped on {r['geoid']}, destination {spec['destination']}"))
+        dest = ctx.world.dest_cell(r["request_id"])
+        if dest is not None and r["geoid"] != dest:
+            out.append(Violation("C07", "dropoff_place", (), f"request {r['request_id']} dropped on {r['geoid']}, destination {dest}"))
         ctx.cov["c07:dropoff"] += 1
     return out
 
@@ -477,8 +477,9 @@ def c03_transition(ctx: Ctx) -> List[Violation]:
                     dr = drop_by[rid]
                     if dr["vehicle_id"] != vid:
                         out.append(Violation("C03", "dropoff_vehicle", (), f"request {rid} carried by {vid}, dropped by {dr['vehicle_id']}"))
-                    if dr["geoid"] != spec["destination"] or ctx.post.vehicles[vid].geoid != spec["destination"]:
-                        out.append(Violation("C03", "dropoff_place", (), f"request {rid} dropped on {dr['geoid']}, destination {spec['destination']}"))
+                    dest = ctx.world.dest_cell(rid)
+                    if dr["geoid"] != dest or ctx.post.vehicles[vid].geoid != dest:
+                        out.append(Violation("C03", "dropoff_place", (), f"request {rid} dropped on {dr['geoid']}, destination {dest}"))
             elif b == "stranded":
                 ctx.cov["c03:stranded"] += 1
                 if not out_of_energy_plausible(ctx, vid):
